@@ -55,6 +55,11 @@ Proof.
 Qed.
 Print Assumptions C05_routing.
 
+(* Pushed events reach EVERY watcher registered for the event type, exactly once each, whichever of them raise; nothing escapes. *)
+Theorem C05_watchers_all_called : forall ws : list watcher, handle_pushed ws = (map fst ws, Returned).
+Proof. exact handle_pushed_all. Qed.
+Print Assumptions C05_watchers_all_called.
+
 (* The hypotheses are satisfiable by a non-trivial input: a v2 frame (8-byte header, stream -1, pushed event), a v4 frame
    (9-byte header, stream 300, empty body), a partial third header; fed one byte at a time. *)
 Definition ex_frames : list frame :=
@@ -65,7 +70,8 @@ Example C05_nonvacuous :
   let stream := concat (map enc ex_frames) ++ ex_tail in
   run_feed init (map (fun b => [b]) stream) = (Live ex_tail, map deliver ex_frames) /\
   route [300; 5] (snd (run_feed init (map (fun b => [b]) stream))) = map routed_as ex_frames /\
-  snd (feed init [135; 0; 0]) = [Defunct R_VERSION].
+  snd (feed init [135; 0; 0]) = [Defunct R_VERSION] /\
+  fst (handle_pushed [(1, true); (2, false); (3, true)]) = [1; 2; 3].
 Proof.
   split; [|split; [reflexivity|vm_compute; repeat split; reflexivity]].
   repeat constructor; vm_compute; intuition discriminate.
